@@ -246,9 +246,11 @@ func (w *kqueue) Close() error {
 		return nil
 	}
 
+	// Remove() is a no-op once the Watcher is marked as closed, so release
+	// the watches (and their file descriptors) directly.
 	pathsToRemove := w.watches.listPaths(false)
 	for _, name := range pathsToRemove {
-		w.Remove(name)
+		w.remove(name, false)
 	}
 
 	unix.Close(w.closepipe[1]) // Send "quit" message to readEvents
@@ -281,14 +283,13 @@ func (w *kqueue) Remove(name string) error {
 		fmt.Fprintf(os.Stderr, "FSNOTIFY_DEBUG: %s  Remove(%q)\n",
 			time.Now().Format("15:04:05.000000000"), name)
 	}
+	if w.isClosed() {
+		return nil
+	}
 	return w.remove(name, true)
 }
 
 func (w *kqueue) remove(name string, unwatchFiles bool) error {
-	if w.isClosed() {
-		return nil
-	}
-
 	name = filepath.Clean(name)
 	info, ok := w.watches.byPath(name)
 	if !ok {
